@@ -63,6 +63,11 @@ pub enum Outcome {
     Abort(u8),
     /// Reservation: status information without receipt number
     NoReceipt,
+    /// 06 1E <code> 87 <receipt>: an abort that also carries a receipt-number field (legal for the reversal / end-of-day
+    /// family, whose abort packet has that optional field)
+    AbortWithReceipt(u8, u64),
+    /// PartialReversal: completion without any status information in front of it
+    NoStatus,
     /// a print line and a status information (carrying a receipt number where the exchange has one) and only then
     /// 06 1E <code>: the usual script of a declined payment. Nothing is reserved / reversed.
     AbortAfterStatus(u8),
@@ -337,6 +342,15 @@ fn respond(g: &mut Sim, kind: Kind, apdu: &[u8], d: &Directive) -> Vec<Vec<u8>> 
         r.push(abort_packet(c));
         return r;
     }
+    if let Outcome::AbortWithReceipt(c, rc) = d.outcome {
+        if matches!(kind, Kind::PendingQuery | Kind::PartialReversal | Kind::PreAuthReversal | Kind::EndOfDay) {
+            let v = make(&t, "PartialReversalAbort", &[("error", Val::U(c as u64)), ("receipt_no", opt_u(Some(rc)))]);
+            r.push(enc(&t, "PartialReversalAbort", &v));
+        } else {
+            r.push(abort_packet(c));
+        }
+        return r;
+    }
     if let Outcome::AbortAfterStatus(c) = d.outcome {
         if matches!(kind, Kind::Reservation | Kind::PartialReversal | Kind::PreAuthReversal | Kind::EndOfDay) {
             // 06 D1: print line "DECLINED"
@@ -389,7 +403,9 @@ fn respond(g: &mut Sim, kind: Kind, apdu: &[u8], d: &Directive) -> Vec<Vec<u8>> 
                 Some(i) => {
                     let p = g.ledger.remove(i);
                     g.booked.push((rc, p.amount.saturating_sub(released)));
-                    if g.reversal_status.is_empty() {
+                    if d.outcome == Outcome::NoStatus {
+                        // completion only
+                    } else if g.reversal_status.is_empty() {
                         let si = make(&t, "StatusInformation", &[("result_code", opt_u(Some(0))), ("amount", opt_u(Some(p.amount.saturating_sub(released)))), ("receipt_no", opt_u(Some(rc)))]);
                         r.push(enc(&t, "StatusInformation", &si));
                     } else {
